@@ -270,9 +270,9 @@ For a positive definite tensor (all eigenvalues ≥ eps, pairwise apart) the pos
 derivative the identity, the negative part and its derivative vanish; symmetrically for a negative definite
 tensor. (`M` orthogonal, i.e. a valid result of the eigen-solver; `l_i ≠ l_j` follows from the branch condition.)
 The second statement is the one violated by the defect found in the 3D all-distinct branch (`dnp`, term
-`vp(2)/(vp(2)-vp(1))` instead of `vp(2)/(vp(2)-vp(0))`, fixed in /repo b8fe4ffa9).'''
-MEANING_PPP = ''' -/
-theorem N3_dect_dist_ppp_meaning (hc : c * c = 2)
+`vp(2)/(vp(2)-vp(1))` instead of `vp(2)/(vp(2)-vp(0))`, fixed in /repo b8fe4ffa9). -/
+'''
+MEANING_PPP = '''theorem N3_dect_dist_ppp_meaning (hc : c * c = 2)
     (s0 s1 s2 s3 s4 s5 eps l0 l1 l2 m00 m01 m02 m10 m11 m12 m20 m21 m22 h00 h11 h22 h01 h02 h12 : K)
     (hl0 : solvp fn "vp0" [s0, s1, s2, s3, s4, s5] = l0) (hl1 : solvp fn "vp1" [s0, s1, s2, s3, s4, s5] = l1)
     (hl2 : solvp fn "vp2" [s0, s1, s2, s3, s4, s5] = l2)
@@ -300,10 +300,10 @@ theorem N3_dect_dist_ppp_meaning (hc : c * c = 2)
   · rw [DK3_apply hc]
     have := dkAct_const hO 1 (M3.sym h00 h11 h22 h01 h02 h12)
     simp only [M3.sym] at this ⊢
-    rw [this]; congr 1; m3_ri'''
-MEANING_NNN = '''ng
+    rw [this]; congr 1; m3_ring
 
-theorem N3_dect_dist_nnn_meaning (hc : c * c = 2)
+'''
+MEANING_NNN = '''theorem N3_dect_dist_nnn_meaning (hc : c * c = 2)
     (s0 s1 s2 s3 s4 s5 eps l0 l1 l2 m00 m01 m02 m10 m11 m12 m20 m21 m22 : K)
     (hl0 : solvp fn "vp0" [s0, s1, s2, s3, s4, s5] = l0) (hl1 : solvp fn "vp1" [s0, s1, s2, s3, s4, s5] = l1)
     (hl2 : solvp fn "vp2" [s0, s1, s2, s3, s4, s5] = l2)
